@@ -40,6 +40,9 @@ S7 (K6) the revision id stored in the metadata is the revision of the very tree 
 transform on revision_tree(metadata[b"revision_id"]). Added while testing against seeded changes.
 S8 where ShelfCreator creates, with create_from_tree, the content of an entry that it also versions afresh, it sets the
 executability on the same transform id (create_from_tree copies kind and content only).
+Fourth round: S10-shelf-id-from-directory — the id passed to get_shelf_filename in new_shelf derives (def-use inside the function) from a
+last_shelf()/active_shelves() call of the same allocation and reads no other manager attribute. S11-shelf-outlives-failed-transform — no
+delete_shelf/delete/unlink is reachable from creator.transform() in shelve_changes, failure edges included.
 Does not decide: that the shelved transform, applied back, restores the same tree (tree values).
 """
 ASSUMPTIONS = ["the shelf directory is accessed under the working tree's write lock (callers), so list_dir + open is not raced"]
@@ -239,9 +242,40 @@ def run(ctx):
         given = [norm(k.value).split(".")[-1] for k in c.keywords if k.arg == "sequence_matcher"] + [norm(a).split(".")[-1] for a in c.args[4:5]]
         ctx.check("S9-merge-aligns-like-the-diff", f"{SH}:ShelfCreator._inverse_lines", given == sorted(dflt), f"Merge3 is given the matcher the hunk diff uses by default ({sorted(dflt)[0]})", construct=norm(c)[:120], message=f"_inverse_lines merges the selected hunks with {given[0] if given else 'the default difflib matcher'} while the hunks offered to the user are computed with {sorted(dflt)[0]}: on files with repeated lines the two align differently, the shelved text gets conflict markers or misplaced lines and unshelving does not restore the content")
     ctx.sample({"template": tmpl[0], "pattern": pats[0], "metadata_keys": sorted(k.decode() for k in wkeys), "actions": {a: v.get("delete_shelf") for a, v in eff.items()}})
+    # ---- S10: a new shelf id is computed from the shelf directory at every allocation --------------------------------------
+    fns = repo.func(SH, "ShelfManager.new_shelf")
+    wns = f"{SH}:ShelfManager.new_shelf"
+    namers = [c for c in calls_in(fns) if call_attr(c) == "get_shelf_filename" and c.args]
+    ctx.require(len(namers) == 1, f"{wns}: expected one get_shelf_filename(<id>) call")
+    listed = {"last_shelf", "active_shelves"}
+    tainted, changed = set(), True
+    assigns_ = [a for a in walk_own(fns) if isinstance(a, ast.Assign) and len(a.targets) == 1 and isinstance(a.targets[0], ast.Name)]
+    while changed:
+        changed = False
+        for a in assigns_:
+            if a.targets[0].id in tainted:
+                continue
+            if any(call_attr(c) in listed and call_recv(c) == "self" for c in calls_in(a.value)) or any(isinstance(n_, ast.Name) and n_.id in tainted for n_ in ast.walk(a.value)):
+                tainted.add(a.targets[0].id)
+                changed = True
+    idexpr = namers[0].args[0]
+    idsrc = [a.value for a in assigns_ if isinstance(idexpr, ast.Name) and a.targets[0].id == idexpr.id] or [idexpr]
+    state_reads = sorted({norm(n_) for v_ in idsrc for n_ in ast.walk(v_) if isinstance(n_, ast.Attribute) and isinstance(n_.value, ast.Name) and n_.value.id == "self" and n_.attr not in listed})
+    from_dir = all(any((isinstance(n_, ast.Name) and n_.id in tainted) or (isinstance(n_, ast.Call) and call_attr(n_) in listed) for n_ in ast.walk(v_)) for v_ in idsrc)
+    ctx.check("S10-shelf-id-from-directory", wns, from_dir and not state_reads, "the id of a new shelf derives from last_shelf()/active_shelves() called in this allocation, not from state kept on the manager", construct=f"id from {[norm(v_)[:50] for v_ in idsrc]}; manager state read: {state_reads}", message=f"ShelfManager.new_shelf takes the new id from {state_reads or 'something other than the directory listing'}: every tree.get_shelf_manager() call makes a new manager, so two managers of one tree hand out the same id and the second shelf is opened 'wb' over the first — the shelved changes are lost")
+    # ---- S11: once written, the shelf outlives a failure of the tree change -------------------------------------------------
+    fsc = repo.func(SH, "ShelfManager.shelve_changes")
+    gsc = build_cfg(fsc)
+    tr = calling(gsc, attr="transform")
+    ctx.require(bool(tr), f"{SH}:ShelfManager.shelve_changes: creator.transform() not found")
+    dels = set(calling(gsc, attr="delete_shelf")) | set(gsc.find(lambda n: n.ast is not None and any(call_attr(c) in ("delete", "unlink", "remove") for c in n.calls())))
+    hit15 = sorted(gsc.reach(tr) & dels)
+    ctx.check("S11-shelf-outlives-failed-transform", f"{SH}:ShelfManager.shelve_changes", not hit15, "nothing reachable from creator.transform() (including its failure edges) deletes the shelf that was just written", construct=gsc.nodes[hit15[0]].text() if hit15 else "", message=f"shelve_changes can reach `{gsc.nodes[hit15[0]].text() if hit15 else ''}` after creator.transform() has started: a transform that fails late (after files and inventory were rewritten — rename failure, finalize) has already removed the changes from the tree, and the shelf that holds their only copy is deleted")
 
 
 MUTANTS = [
+    Mutant("shelf id remembered on the manager", SH, "        last_shelf = self.last_shelf()\n        next_shelf = 1 if last_shelf is None else last_shelf + 1\n        filename = self.get_shelf_filename(next_shelf)\n", "        if getattr(self, \"_next\", None) is None:\n            last_shelf = self.last_shelf()\n            self._next = 1 if last_shelf is None else last_shelf + 1\n        next_shelf = self._next\n        self._next += 1\n        filename = self.get_shelf_filename(next_shelf)\n", expect="S10-shelf-id-from-directory"),
+    Mutant("shelf deleted when the transform fails", SH, "            shelf_file.close()\n        creator.transform()\n        return next_shelf\n", "            shelf_file.close()\n        try:\n            creator.transform()\n        except BaseException:\n            self.delete_shelf(next_shelf)\n            raise\n        return next_shelf\n", expect="S11-shelf-outlives-failed-transform"),
     Mutant("partial-hunk merge falls back to difflib", SH, "            work_lines,\n            sequence_matcher=patiencediff.PatienceSequenceMatcher,\n", "            work_lines,\n", expect="S9-merge-aligns-like-the-diff"),
     Mutant("created entries lose the executable bit", SH, "                    if kind == \"file\" and tree.is_executable(path):\n                        to_transform.set_executability(True, s_trans_id)\n", "", expect="S8-created-entry-keeps-exec-bit"),
     Mutant("shelf base recorded from the working tree's last revision", SH, "        revision_id = self.target_tree.get_revision_id()\n", "        revision_id = self.work_tree.last_revision()\n", expect="S7-base-is-transform-tree"),
